@@ -689,7 +689,7 @@ func (g *gen) pinned() {
 	g.runStr(2, "abc", []V{vNum(1), vNum(math.Inf(1))}, "pinned")
 	// 11 (fixed 4b9c107) toString calls join without arguments
 	g.runHist(arr(nums(1, 2)), []Op{{kind: 'c', m: 18, args: []Arg{av(vStr("-"))}}}, "pinned")
-	// 13 (open) reverse tests HasProperty before it Gets: a getter that truncates the receiver
+	// 13 (fixed c7552c5) reverse Gets both values before the presence tests: a getter that truncates the receiver
 	g.runHist(Recv{arr: true, elems: []*V{vp(vNum(3)), vp(vStr("x"))}, getters: map[int]Getter{1: {id: 32, p: 8, fx: 4}}}, []Op{{kind: 'c', m: 3}}, "pinned")
 	// 12 (fixed fcc8076) the callback methods read length before the IsCallable test: all seven, every run
 	for m := 10; m <= 16; m++ {
